@@ -1442,7 +1442,11 @@ def _run_specs(specs, cmds):
         return
     elif captured == "stdout":
         cp.end()
+        # An alias stage ran its own commands while being ended, and each of
+        # them re-pointed ``lastcmd``: the caller judges this pipeline by it.
+        XSH.last = XSH.lastcmd = XSH.interface.lastcmd = cp
         return cp.output
     else:
         cp.end()
+        XSH.last = XSH.lastcmd = XSH.interface.lastcmd = cp
         return
